@@ -108,8 +108,8 @@ def toml_value(v: Any) -> str:
 
 def plain_safe(v: str) -> bool:
     """may be written without quotes in an INI file (the guard of C20_unquoted_identity_syntactic + configparser's strip)"""
-    return (v != '' and v == v.strip() and v[0] not in '\'"[' and '\n' not in v and '\r' not in v
-            and all(c.isprintable() for c in v))
+    return (v != '' and v == v.strip() and v[0] not in '\'"' and not (v[0] == '[' and v[-1] == ']')
+            and '\n' not in v and '\r' not in v and all(c.isprintable() for c in v))
 
 
 def ini_escape(v: str) -> str:
@@ -221,7 +221,7 @@ def load_table() -> List[dict]:
     return rows
 
 
-STR_VALUES = ['x', 'a b', '\xe9t\xe9', ' lead', 'trail ', '', '#x', 'a=b', 'a;b', '[x]', '[', "it's", 'say "hi"',
+STR_VALUES = ['x', 'a b', '\xe9t\xe9', ' lead', 'trail ', '', '#x', 'a=b', '[x', 'x]', 'a;b', '[x]', '[', "it's", 'say "hi"',
               'a\\b', 'a\\nb', '"q"', "'q'", '-x', '--verbose', 'a\nb', 'true', '1', 'None', '${x}', 'a,b', 'C:\\dir\\n',
               '1.10', 'a%b', "'", '"""', 'tab\there']
 INT_VALUES = ['0', '5', '3', '-3', '007', 'x', '1.5', '+2']
@@ -271,7 +271,7 @@ class Check(PropertyCheck):
     props_module = 'Props.C20'
     models = {'quote': 'XQuote.v'}
     needs_gen = True
-    gen_modules = ['gen_c20']
+    gen_modules = ['gen_c20', 'gen_c20_code']
     rule = ('quote: every text of length <= N over {a \' " \\ LF space # [ ] =} raw and in every quoted form + near-misses '
             '(non-trivial = contains a quote or backslash); options: every option of the live parser x its value set x '
             '{pyproject.toml, setup.cfg, pydoctor.ini} (non-trivial = the value is not the default); distinct by construction')
@@ -279,6 +279,11 @@ class Check(PropertyCheck):
         'Coq 8.16.1 kernel (coqc; vm_compute for table facts and witnesses; no native_compute)',
         'no axioms (Print Assumptions: Closed under the global context for every theorem)',
         'translator A harness/gen/gen_c20.py (option table, both regexes via re._parser, section names) -- fail-closed',
+        'translator harness/gen/gen_c20_code.py: the bodies of is_quoted, unquote_str and the item loop of IniConfigParser.parse, '
+        'statement by statement into the language of Model/IniIR.v (fail-closed); primitives of that language (stated in '
+        'IniIR.v): regex membership, ast.literal_eval = Spec.PyListLit/PyStrLit, one-character str methods, the two '
+        'comprehension shapes, isinstance, class-based except matching; exception messages are not translated; the two '
+        'loop headers and the read_string prologue are pinned shapes',
         'extraction: ExtrOcamlBasic only; OCaml 4.13.1; coq/ocaml/driver.ml',
         'correspondence harness harness/c20.py + harness/impl/c20_options.py',
         'specs of external behaviour, validated against the running CPython on the same enumerations: '
@@ -288,7 +293,9 @@ class Check(PropertyCheck):
         'str.lower beyond ASCII, int() beyond [+-]digits, the typed container conversions of Options.from_namespace',
     ]
     manifest = {
-        'text': ('Theorems (unbounded): _QUOTED_STR_REGEX as regenerated from the source is exactly the recogniser '
+        'text': ('The source of is_quoted, unquote_str and the item loop of IniConfigParser.parse is translated on every run into a '
+                 'deep-embedded language and proved equal to the hand model for all inputs (C20_code_*_is_model), so the '
+                 'theorems below are about the code as it is now. Theorems (unbounded): _QUOTED_STR_REGEX as regenerated from the source is exactly the recogniser '
                  'q(\\\\.|[^q\\\\])*q (C20_quoted_regex_is_recogniser); repr(s) and the double-quote quoting function are '
                  'recognised and unquote_str returns s for every Python str (C20_quote_roundtrip), also through '
                  'IniConfigParser\'s decision tree (C20_ini_quoted_roundtrip); accepted-but-not-a-literal classes stated '
@@ -561,6 +568,26 @@ class Check(PropertyCheck):
             if tag == 0 and r['unq'] != [0, val] or tag == 1 and r['unq'][0] != 1:
                 out.append(Violation('correspondence', 'Model.Quote.unquote_str and _configparser.unquote_str disagree',
                                      case=c, expected=[tag, val], observed=r['unq']))
+        # third leg: the TRANSLATED code (Gen/IniCode.v) interpreted by the extracted Model/IniIR.v, on a sample
+        sub = cases[::5]
+        irs = self.model('quote', [enc([11, c['t'], c['triple']]) for c in sub])
+        imp = impl[::5]
+        self.evaluations += len(sub)
+        for c, r, m in zip(sub, imp, irs):
+            mm = dec(m)
+            ok = mm[0][0] == 0 and bool(mm[0][1]) == r['isq']
+            u = mm[1]
+            if u[0] == 0:
+                ok = ok and r['unq'] == [0, txt(u[1])]
+            elif u[0] == 1:
+                ok = ok and r['unq'][0] == 1
+            elif u[0] == 3:
+                ok = False
+            if not ok:
+                out.append(Violation('correspondence', 'the translated code of is_quoted / unquote_str (Gen/IniCode.v) interpreted by '
+                                     'Model/IniIR.v disagrees with the implementation', case=c, expected=mm,
+                                     observed={'isq': r['isq'], 'unq': r['unq']}))
+        self.stats['quote_ir_leg'] = len(sub)
         self.stats['quote_texts'] = len(texts)
         self.stats['quote_nontrivial'] = nt
         # the property itself on the real functions: what a quoting function wrote is read back
@@ -749,6 +776,19 @@ class Check(PropertyCheck):
             else:
                 mod_in.append(enc([7, [[k, cval(v)] for k, v in c['data']]]))
         mod = self.model('quote', mod_in)
+        ir_idx = [i for i in range(n_ini) if i not in skip]
+        ir_out = self.model('quote', [enc([10, impl[i]['view']]) for i in ir_idx])
+        for i, m in zip(ir_idx, ir_out):
+            mm = dec(m)
+            if mm[0] == 2:
+                continue
+            got = impl[i]['parse']
+            want = de_pres(mm) if mm[0] in (0, 1) else None
+            if want is None or not (('ok' in want and got.get('ok') == want['ok']) or ('err' in want and 'err' in got)):
+                out.append(Violation('correspondence', 'the translated code of IniConfigParser.parse (Gen/IniCode.v) interpreted by '
+                                     'Model/IniIR.v disagrees with the implementation', case=cases[i], expected=want or 'stuck',
+                                     observed=got))
+        self.stats['parser_ir_leg'] = len(ir_idx)
         for i, (c, r, m) in enumerate(zip(cases, impl, mod)):
             if i in skip:
                 self.count('parser_tokeniser_rejected_' + c['k'])
@@ -1183,6 +1223,9 @@ class Check(PropertyCheck):
 
     def replay(self, data: Any) -> int:
         case = data['input']
+        if not isinstance(case, dict):
+            print('no concrete input was recorded:', data.get('what'))
+            return 1
         self.table = load_table()
         k = case.get('k')
         if k == 'quote_oracle':
